@@ -75,9 +75,12 @@ def run(ctx):
         for compact in (False, True):
             text = MwpBound.bound_poly(mb, compact=compact)
             rhos = []
+            # every name of the pool gets a value, also those the triple does not list (a name printed that should
+            # not be there must change the value), and one valuation has no zero at all
             for _ in range(4):
-                rhos.append([[n, rng.choice([0, 0, 1, 2, 3, 5, 7, 11])] for n in allv])
-            rhos.append([[n, 0] for n in allv])
+                rhos.append([[n, rng.choice([0, 0, 1, 2, 3, 5, 7, 11])] for n in NAMES])
+            rhos.append([[n, 0] for n in NAMES])
+            rhos.append([[n, p_] for n, p_ in zip(NAMES, [2, 3, 5, 7, 11, 13, 17, 19, 23, 29, 31, 37])])
             reqs.append({'op': 'model.bound_poly', 'x': x, 'y': y, 'z': z, 'compact': compact, 'k': k})
             metas.append(('model', x, y, z, compact, text, mb.bound_str, shown, k))
             reqs.append({'op': 'check.C20', 'x': x, 'y': y, 'z': z, 'text': text, 'rhos': rhos})
